@@ -103,10 +103,24 @@ def param_argument(m):
     return list(m["params"])
 
 
-def build(m, routes=None, perm=None, backend="lambda", as_ode=False):
+def _container(items, container, bare_ok):
+    """Constructor argument for a non-empty group of objects.  The setters accept a list or tuple for event /
+    transition / birth_death, a list for ode, and a single Transition object in place of a list for birth_death and ode."""
+    if not items:
+        return None
+    if container == "bare" and bare_ok and len(items) == 1:
+        return items[0]
+    if container == "tuple" and bare_ok != "ode":
+        return tuple(items)
+    return items
+
+
+def build(m, routes=None, perm=None, backend="lambda", as_ode=False, container="list"):
     """Return (model, order).  routes: per-event route names (default all "event");
     perm: order in which IR events are handed over (default identity);
-    as_ode: ignore events and enter the whole right-hand side as explicit ode= strings."""
+    as_ode: ignore events and enter the whole right-hand side as explicit ode= strings;
+    container: how the constructor arguments are wrapped ("list", "tuple", or "bare": a lone birth_death / ode
+    entry handed over as the object itself, which the setters document as accepted)."""
     SimulateOde, Transition, _E, ode_utils = _pg()
     events = m.get("events", [])
     n_e = len(events)
@@ -150,8 +164,8 @@ def build(m, routes=None, perm=None, backend="lambda", as_ode=False):
                 later.append((r, obj))
                 o_later.append(ei)
     model = SimulateOde(state_argument(m), param_argument(m), derived_param=derived,
-                        event=ctor_event or None, transition=ctor_trans or None,
-                        birth_death=ctor_bd or None, ode=odes or None)
+                        event=_container(ctor_event, container, False), transition=_container(ctor_trans, container, False),
+                        birth_death=_container(ctor_bd, container, "bd"), ode=_container(odes, container, "ode"))
     if backend == "lambda":
         model._SC = ode_utils.compileCode(backend="lambda")
     for r, obj in later:
